@@ -7,6 +7,7 @@ package c11
 
 import (
 	"bytes"
+	"context"
 	"fmt"
 	"io"
 	"mime"
@@ -287,7 +288,13 @@ func genWorld(tape *kernel.Tape, env *kernel.Env, idx int) (*world, bool) {
 		st.Data = data[:off]
 		st.Term = &kernel.InjectedError{What: what}
 		// which error value the source fails with, and whether it says so once only (io.Reader does not promise more)
-		switch tape.Weighted("source-error-value", 3, 1, 1) {
+		switch tape.Weighted("source-error-value", 3, 1, 1, 1, 1) {
+		case 3:
+			st.Term = io.ErrClosedPipe
+			env.Fault("source-error-is-io.ErrClosedPipe")
+		case 4:
+			st.Term = fmt.Errorf("source cancelled: %w", context.Canceled)
+			env.Fault("source-error-wraps-context.Canceled")
 		case 1:
 			st.Term = io.ErrUnexpectedEOF // what a truncated download used as the upload's source reports
 			env.Fault("source-error-is-io.ErrUnexpectedEOF")
